@@ -64,18 +64,33 @@ pub fn run(args: &[&str]) -> String {
 /// the re-assembled bytes.
 pub fn run_listing(args: &[&str]) -> String {
     let bytes = unhex(args[0]);
+    // optional second argument: sizes of the pieces the input is written in (dot separated); the listing is
+    // collected after every write, as a streaming client would
+    let mut sizes: Vec<usize> = match args.get(1) {
+        Some(s) if *s != "-" => s.split('.').filter_map(|x| x.parse().ok()).collect(),
+        _ => vec![],
+    };
+    sizes.push(usize::MAX);
     let mut d = Disassembler::new();
-    d.write_all(&bytes).unwrap();
     let mut text = String::new();
     let mut offs = Vec::new();
-    for o in d.ops() {
-        offs.push(o.offset.to_string());
-        text.push_str(&o.item.code().to_string());
-        if let Some(i) = o.item.immediate() {
-            text.push_str(" 0x");
-            text.push_str(&hex::encode(i));
+    let mut rest: &[u8] = &bytes;
+    for sz in sizes {
+        let n = sz.min(rest.len());
+        d.write_all(&rest[..n]).unwrap();
+        rest = &rest[n..];
+        for o in d.ops() {
+            offs.push(o.offset.to_string());
+            text.push_str(&o.item.code().to_string());
+            if let Some(i) = o.item.immediate() {
+                text.push_str(" 0x");
+                text.push_str(&hex::encode(i));
+            }
+            text.push('\n');
         }
-        text.push('\n');
+        if rest.is_empty() {
+            break;
+        }
     }
     let fin = d.finish().is_ok();
     let mut outv = Vec::new();
